@@ -197,6 +197,9 @@ impl Sys {
                 Some(St::Disc(r)) => Some(r),
                 _ => None,
             };
+            if self.server.is_connected(id as u64) != (self.sconn[id] == Some(St::Connected)) {
+                return Err(Fail::new("revived", format!("{op:?}: server.is_connected({id}) = {}, the history has that connection as {:?}", self.server.is_connected(id as u64), self.sconn[id])));
+            }
             if self.server.disconnect_reason(id as u64) != exp {
                 return Err(Fail::new("server_reason", format!("{op:?}: server.disconnect_reason({id}) = {:?}, expected {exp:?}", self.server.disconnect_reason(id as u64))));
             }
